@@ -124,6 +124,46 @@ fn probe(sc: &Value) -> Value {
                 let _ = h.join();
             }
         }
+    } else if kind == "queue-sampler" {
+        struct Fast;
+        impl MetricSink for Fast {
+            fn emit(&self, m: &str) -> io::Result<usize> {
+                Ok(m.len())
+            }
+        }
+        let q = QueuingMetricSink::with_capacity(Fast, 1);
+        let stop = Arc::new(AtomicBool::new(false));
+        let (q2, s2) = (q.clone(), stop.clone());
+        let producer = std::thread::spawn(move || {
+            let mut n = 0u64;
+            while !s2.load(Ordering::Relaxed) && n < 4_000_000 {
+                let _ = q2.emit("m:1|c");
+                n += 1;
+            }
+        });
+        let t = Instant::now();
+        let mut bad: Option<String> = None;
+        while t.elapsed() < Duration::from_secs(25) && !producer.is_finished() {
+            let r = std::panic::catch_unwind(std::panic::AssertUnwindSafe(|| q.queued()));
+            match r {
+                Err(_) => {
+                    bad = Some("queued() panicked (arithmetic overflow) while a producer and the worker were running".into());
+                    break;
+                }
+                Ok(v) => {
+                    let sub = q.submitted();
+                    if v > sub {
+                        bad = Some(format!("queued() returned {} which exceeds submitted() = {}", v, sub));
+                        break;
+                    }
+                }
+            }
+        }
+        stop.store(true, Ordering::Relaxed);
+        let _ = producer.join();
+        if let Some(d) = bad {
+            viol.push(json!({"prop": "C15", "clause": "queued-in-range", "detail": d}));
+        }
     } else if kind == "queue-stats" {
         let sh = Arc::new(Shared { entered: Mutex::new(vec![]), finished: AtomicUsize::new(0), dropped: AtomicBool::new(false), outcomes: Mutex::new(vec![]) });
         let (tx, rx) = channel::<String>();
